@@ -8,6 +8,7 @@ import (
 	"math/rand"
 	"net"
 	"os"
+	"strings"
 	"sync"
 	"time"
 
@@ -193,7 +194,11 @@ func cmdChurn(args []string) {
 	cycles := fs.Int("cycles", 10, "batches")
 	inflight := fs.Int("inflight", 8, "connections in flight per batch")
 	seed := fs.Int64("seed", 1, "seed")
+	only := fs.String("modes", "", "comma separated ending modes (default: all)")
 	fs.Parse(args)
+	if *only != "" {
+		churnModes = strings.Split(*only, ",")
+	}
 	rec, err := NewRecorder(*out)
 	must(err)
 	rec.Begin(1)
